@@ -312,7 +312,10 @@ StopDispatch(k) ==
                                      ELSE tpc' = "cont" /\ csig' = 0 /\ UNCHANGED <<execved, result>>
     [] ev[k].t \in {"fork", "vfork", "clone"} -> tpc' = "cont" /\ csig' = 0 /\ UNCHANGED <<execved, result>>
     [] ev[k].t = "exec" -> tpc' = "cont" /\ csig' = 0 /\ execved' = TRUE /\ UNCHANGED result
-    [] ev[k].t \in {"sig", "grp"} /\ ev[k].x = SIGTRAP -> tpc' = "cont" /\ csig' = 0 /\ UNCHANGED <<execved, result>>
+    \* a SIGTRAP that is no ptrace event: the launcher's post-exec trap is dropped, a genuine one
+    \* raised by the program is delivered
+    [] ev[k].t \in {"sig", "grp"} /\ ev[k].x = SIGTRAP ->
+         tpc' = "cont" /\ csig' = (IF execved THEN SIGTRAP ELSE 0) /\ UNCHANGED <<execved, result>>
     [] OTHER -> tpc' = "cont" /\ csig' = ev[k].x /\ UNCHANGED <<execved, result>>
 
 \* wait4 + first half of handle()
